@@ -148,8 +148,8 @@ example : 0 < fmt32.inf.toNat ∧ 0 < fmt64.inf.toNat := by decide
 
 /-! ### the float code of /repo, translated on every run, is the model the theorems are about
 
-  `extract/translate.go` turns `bitmask64`, `ufloatFracBits`, `ufloat64Parts`, `ufloat64FromParts` and the
-  two `switch` blocks of `genUfloatRange` (floats.go, utils.go) into Lean definitions
+  `extract/translate.go` turns `bitmask64`, `ufloatFracBits`, `ufloat64Parts`, `ufloat64FromParts`, the
+  two `switch` blocks and the bit-clearing loop of `genUfloatRange` (floats.go, utils.go) into Lean definitions
   (`RapidModel/Generated/Translated.lean`, rewritten from the working tree on every run).  The theorems
   below identify them with the hand-written model for ALL arguments: a change of any of these
   functions in /repo breaks a proof here, not only a sampled correspondence. -/
@@ -173,6 +173,13 @@ theorem source_genUfloatRange_switches (e : Int64) (fb S : UInt64) (l r : Bool) 
     Translated.ufloatSwitchSF e fb l maxExp F1 maxSI minExp F0 minSI r si =
       sfBounds S.toNat (minExp.toInt, minSI, F0) (maxExp.toInt, maxSI, F1) e.toInt l r si :=
   ⟨tr_switchSI e fb S l r maxExp minExp maxSI minSI F0 F1 he hfb, tr_switchSF e fb S l r maxExp minExp maxSI minSI F0 F1 si he hfb⟩
+
+/-- the loop at the end of `genUfloatRange` that clears low bits of the fractional significand -/
+theorem source_genUfloatRange_clear_loop (maxR : Int64) (r sfMin : UInt64) (hb : (maxR.toUInt64 - r).toNat ≤ 64)
+    (fuel : Nat) (sf : UInt64) (hf : (maxR.toUInt64 - r).toNat ≤ fuel) :
+    Translated.ufloatClearLoop maxR r sfMin fuel 0 sf = clearLow sfMin (maxR.toUInt64 - r).toNat 0 sf := by
+  have := tr_clearLoop maxR r sfMin hb fuel 0 sf (by rw [UInt64.le_iff_toNat_le]; simp) (by simpa using hf)
+  simpa using this
 
 /-- the premises are satisfiable: `[-1.5, +Inf]` in float64 and `[-0, 1]` in float32 are admissible
     ranges, and NaN bounds or reversed bounds are not -/
